@@ -77,19 +77,19 @@ Section ident.
 
   (** A [BTreeSet<Identifier>] / the key set of a [BTreeMap<Identifier,_>]:
       strictly sorted list. *)
-  Fixpoint set_insert (i : list (Qc * T)) (l : list (list (Qc * T))) : list (list (Qc * T)) :=
+  Fixpoint idset_insert (i : list (Qc * T)) (l : list (list (Qc * T))) : list (list (Qc * T)) :=
     match l with
     | [] => [i]
     | x :: l' =>
         match idcmp i x with
         | Lt => i :: l
         | Eq => l
-        | Gt => x :: set_insert i l'
+        | Gt => x :: idset_insert i l'
         end
     end.
 
   (** [BTreeMap::entry(id).or_insert(val)] *)
-  Fixpoint map_insert {X} (i : list (Qc * T)) (v : X) (l : list (list (Qc * T) * X))
+  Fixpoint idmap_insert {X} (i : list (Qc * T)) (v : X) (l : list (list (Qc * T) * X))
     : list (list (Qc * T) * X) :=
     match l with
     | [] => [(i, v)]
@@ -97,18 +97,18 @@ Section ident.
         match idcmp i x.1 with
         | Lt => (i, v) :: l
         | Eq => l
-        | Gt => x :: map_insert i v l'
+        | Gt => x :: idmap_insert i v l'
         end
     end.
   (** [BTreeMap::remove] *)
-  Fixpoint map_remove {X} (i : list (Qc * T)) (l : list (list (Qc * T) * X))
+  Fixpoint idmap_remove {X} (i : list (Qc * T)) (l : list (list (Qc * T) * X))
     : list (list (Qc * T) * X) :=
     match l with
     | [] => []
     | x :: l' =>
         match idcmp i x.1 with
         | Eq => l'
-        | _ => x :: map_remove i l'
+        | _ => x :: idmap_remove i l'
         end
     end.
 End ident.
